@@ -140,7 +140,7 @@ def random_inputs(ctx: Ctx, n):
         genes = [f"g{j}" for j in range(rng.choice([1, 3, 8]))]
         names = rng.choice(NAMINGS)
         gene = rng.random() < 0.8
-        op = OPS[k % len(OPS)]
+        op = OPS[k % len(OPS)] if k % 3 else "subdivide"     # a third of the random cases go to subdivide
         a = _rand_table(rng, rng.choice([0, 1, 2, 5, 12, 40]), nchrom, maxc, genes)
         b = []
         if op in ("subtract", "intersect_trim"):
@@ -151,6 +151,11 @@ def random_inputs(ctx: Ctx, n):
             p1 = rng.choice([0, 0, 1, 2, 10, 500])
         elif op == "subdivide":
             p1 = rng.choice([1, 2, 3, 7, 100, 267, 5000])
+            if a and rng.random() < 0.6:
+                # aim at 2..40 bins per region: the equal split is computed in floating point, so many different
+                # (span, nbins) pairs must be exercised, not only small ones
+                span = max(r[2] - r[1] for r in a)
+                p1 = max(1, span // rng.randint(2, 40) + rng.choice([-1, 0, 0, 1]))
             total = sum(r[2] - r[1] for r in a)
             p1 = max(p1, total // 300 + 1)     # keep the output below ~300 rows
             p2 = rng.choice([0, 0, 1, 5, 50, 2 * p1])
